@@ -362,6 +362,14 @@ func (vc *FuncVC) execCall(in ssa.Instruction, c *ssa.CallCommon, res ssa.Value)
 func (vc *FuncVC) opaqueCall(name, kind string, sig *types.Signature) *Val {
 	vc.abstract("opaque-call:" + vc.P.shortName(name))
 	vc.havocOpaque("call:" + name)
+	if kind == "static" {
+		if fn := vc.P.Funcs[name]; fn != nil && vc.P.inRepoPkg(pkgOf(fn)) {
+			// a function of this repository without a contract may write anything,
+			// including the fields the global frame assumption protects from outside code
+			vc.cur.havocTotal = true
+			vc.note("%s is a function of this repository without a contract: every heap component is havoc'd at its call", vc.P.shortName(name))
+		}
+	}
 	return vc.resultVal("ret", sig)
 }
 
@@ -515,7 +523,7 @@ func (vc *FuncVC) assumeAllocatedOrFresh(t Term, typ types.Type) {}
 // havoc its frame, assume ensures.
 func (vc *FuncVC) applyContract(con *Contract, name string, fn *ssa.Function, sig *types.Signature, c *ssa.CallCommon, recv *Term, argVals []*Val, args []Term) *Val {
 	vc.contractUse[name] = true
-	if vc.P.CS.Assumed[name] {
+	if vc.P.CS.Assumed[name] || con.Trusted {
 		vc.assumedUsed[name] = true
 	}
 	pre := vc.cur
